@@ -780,6 +780,10 @@ pub fn drive<K: Check>(check: K, args: RunArgs) -> i32 {
                             cases: per_worker as u32,
                             failure_persistence: None,
                             max_shrink_iters: check.max_shrink_iters(),
+                            // shrinking is bounded in wall time as well (a failure is reported with
+                            // the smallest case reached, never turned into "inconclusive" by a slow
+                            // shrink on a loaded machine)
+                            max_shrink_time: env_u64("PV_SHRINK_MS", 120_000) as u32,
                             max_global_rejects: 1 << 20,
                             max_local_rejects: 1 << 20,
                             ..Config::default()
